@@ -8,6 +8,8 @@
     the cumulated offsets), zipped with the successors as labels/zip.rs does.
     Definitions only. *)
 From WG Require Import Base.Prelude Codes.Codes BV.Model BV.RefSel BV.Bits Par.Splice.
+
+Module LabelStoreM.
 Local Open Scope N_scope.
 
 (** * Label serializers (traits/bit_serde.rs) *)
@@ -263,3 +265,7 @@ Definition read_zip_ra (le : bool) (cs : codes) (p : params) (sr : ser) (n : nat
   '(g, _) <- decode_graph bits (rd_bits le cs) p n gbits ;;
   lss <- lab_read_ra_all le sr n lbits obits ;;
   Some (zip_nodes g lss).
+
+
+End LabelStoreM.
+Export LabelStoreM.
